@@ -55,7 +55,13 @@ def optimal_rotation_matrix(source, target, allow_mirror=False):
     rotation : `ndarray`
         The optimal square rotation matrix.
     """
-    correlation = np.dot(target.points.T, source.points)
+    # the correlation is formed in floating point: the products of
+    # integer-typed coordinates (pixel positions stored as int16/uint16) would
+    # silently wrap around
+    correlation = np.dot(
+        target.points.T.astype(np.float64, copy=False),
+        source.points.astype(np.float64, copy=False),
+    )
     U, D, Vt = np.linalg.svd(correlation)
     R = np.dot(U, Vt)
 
